@@ -111,6 +111,13 @@ Definition shape_of (op : string) : shape :=
   if op =s "invalid" then sh_pure else
   sh_unknown.      (* invoke, ret, dret, retfmp, sink, dalloca, bump, getfmp, setfmp, msize, ... *)
 
+(* control instructions are executed by `step` itself and leave the store alone *)
+Definition CTL_OPS : list string := ["jmp"; "jnz"; "djmp"; "assert"; "assert_unreachable"].
+Definition HALT_OPS : list string := ["return"; "revert"; "stop"; "invalid"; "selfdestruct"; "ret"; "dret"; "retfmp"; "sink"].
+(* what an instruction may write / what it reads (for a halting instruction: what is observed) *)
+Definition wshape (op : string) : shape := if is_in op CTL_OPS then sh_pure else shape_of op.
+Definition rshape (op : string) : shape := if is_in op HALT_OPS then shape_of op else wshape op.
+
 Record crange := mkCR { cr_sp : sp; cr_lo : Z; cr_len : Z }.
 Definition conc_range (a : list Z) (r : srange) : crange :=
   mkCR (sr_sp r) (match sr_ptr r with PArg i => aget 0 a i | PConst z => z end)
@@ -140,7 +147,7 @@ Definition wf_store (st : store) : Prop :=
 Record cfg := mkC { cv : N -> Z; cs : store; ct : Z }.
 
 Definition oval (c : N -> Z) (o : operand) : Z :=
-  match o with OLit v => v mod W | OVar x => c x mod W | OLab l => Z.of_N l end.
+  match o with OLit v => v mod W | OVar x => c x mod W | OLab l => Z.of_N l mod W end.
 
 Fixpoint bind (c : N -> Z) (outs : list N) (vals : list Z) : N -> Z :=
   match outs with
@@ -151,7 +158,6 @@ Fixpoint bind (c : N -> Z) (outs : list N) (vals : list Z) : N -> Z :=
 (* ------------------------------------------------------------------ one instruction *)
 Inductive sres := SNext (c : cfg) | SJump (l : N) (c : cfg) | SHalt (op : string) (a : list Z) (v : store).
 
-Definition HALT_OPS : list string := ["return"; "revert"; "stop"; "invalid"; "selfdestruct"; "ret"; "dret"; "retfmp"; "sink"].
 Definition labels_of (l : list operand) : list N := flat_map (fun o => match o with OLab x => [x] | _ => [] end) l.
 Definition stuck : sres := SHalt "stuck" [] zero_store.
 
@@ -256,8 +262,8 @@ Record exact (X : oracle) (A asz : Z -> Z) : Prop := {
   ex_add : forall a b t v, o_outs (X "add" [b; a] t v) = [(a + b) mod W];
   ex_sub : forall a b t v, o_outs (X "sub" [b; a] t v) = [(a - b) mod W];
   ex_alloca : forall id t v, o_outs (X "alloca" [asz id; id] t v) = [A id];
-  ex_store : forall s, is_cell_sp s = true -> forall p w t v i, 0 <= i < width s ->
-      norm s (o_cell (X (store_op s) [w; p] t v) s (p + i)) = enc s (w mod W) i;
+  ex_store : forall s, is_cell_sp s = true -> forall p w t v i, 0 <= w < W -> 0 <= i < width s ->
+      norm s (o_cell (X (store_op s) [w; p] t v) s (p + i)) = enc s w i;
   ex_load : forall s, is_cell_sp s = true -> forall p t v, o_outs (X (load_op s) [p] t v) = [dec s (fun i => v s (p + i))];
   ex_A : forall i, 0 <= A i /\ 0 <= asz i /\ A i + asz i < W;
   ex_disj : forall i j, i <> j -> A i + asz i <= A j \/ A j + asz j <= A i }.
